@@ -486,6 +486,45 @@ def argument_history_worker(part, _):
                     break
             part.outcome(("arghist", readonly, np.dtype(dtype).name))
     part.nstates(4)
+    # the arrays the object was BUILT from, edited by the caller afterwards (a scratch buffer reused for the next molecule).  Whether the
+    # object keeps a snapshot or a view of them is its own business - but it is one or the other: what it answers after the edit
+    # does not depend on whether it had been asked anything before the edit, and it is the sum of the atoms as built or as edited
+    pts = eval_points(sites)[::3]
+    p64 = pts.astype(np.float32).astype(np.float64)
+    for zt in (np.int32, np.int64, np.uint8):
+        for pt in (np.float32, np.float64):
+            for edit in ("elements", "positions"):
+                part.ev()
+                part.tr(3)
+                case = {"kind": "arghist"}
+                answers = []
+                for asked_before in (True, False):
+                    z_in = np.array([8, 1, 1], dtype=zt)
+                    s_in = sites.astype(pt)
+                    obj = PromoleculeDensity((z_in, s_in))
+                    swo = StockholderWeight.from_arrays(z_in, s_in, ez, ext)
+                    if asked_before:
+                        obj.rho(pts)
+                        swo.weights(pts)
+                    if edit == "elements":
+                        z_in[:] = [17, 6, 6]
+                    else:
+                        s_in += pt(0.4)
+                    answers.append((np.asarray(obj.rho(pts), dtype=np.float64), np.asarray(swo.weights(pts), dtype=np.float64)))
+                (ra, wa_), (rb, wb_) = answers
+                if not (relerr(ra, rb) <= 1e-5) or not (np.abs(wa_ - wb_).max() <= 1e-5):
+                    part.fail("constructor-arrays:history", "atoms given as %s / %s arrays, the caller's %s array edited after construction: the density / weights answered afterwards depend on whether "
+                              "the object had been evaluated before the edit (rel. %.3g, weights %.3g)" % (np.dtype(zt).name, np.dtype(pt).name, edit, relerr(ra, rb), float(np.abs(wa_ - wb_).max())), case)
+                    continue
+                as_built, alt_b = interp.promolecule_rho(np.array([8, 1, 1]), sites.astype(np.float32).astype(np.float64), p64)
+                z_now = np.array([17, 6, 6]) if edit == "elements" else np.array([8, 1, 1])
+                s_now = (sites.astype(pt) + pt(0.4) if edit == "positions" else sites).astype(np.float32).astype(np.float64)
+                as_edited, alt_e = interp.promolecule_rho(z_now, s_now, p64)
+                keep = np.min(np.linalg.norm(p64[:, None, :] - np.vstack([sites, s_now])[None, :, :], axis=2), axis=1) >= 0.3
+                if not (min(relerr(ra[keep], as_built[keep], alt_b[keep]), relerr(ra[keep], as_edited[keep], alt_e[keep])) <= REL):
+                    part.fail("constructor-arrays:value", "atoms given as %s / %s arrays, the caller's %s array edited after construction: the density is neither that of the atoms as built nor "
+                              "as edited" % (np.dtype(zt).name, np.dtype(pt).name, edit), case)
+                part.outcome(("ctor-arrays", np.dtype(zt).name, np.dtype(pt).name, edit))
 
 
 def worker(part, job, seed):
